@@ -541,6 +541,13 @@ func taskScheduleHandler() {
 			}
 			t := e.Value.(*Task) //nolint:forcetypeassert // Can only be *Task.
 
+			// The schedule may have changed since the timer was set: only
+			// process the task if it is actually due.
+			if time.Until(t.executeAt) > 0 {
+				scheduleLock.Unlock()
+				continue
+			}
+
 			// process Task
 			if t.overtime {
 				// already queued and maxDelay reached
